@@ -30,3 +30,25 @@ fn c02_literals_ignore_case_in_every_anchor_shape() {
     assert!(m("|https://site.test/Promo/", "https://site.test/Promo/banner.gif"));
     assert!(m("||site.test/Promo/", "https://site.test/promo/banner.gif"));
 }
+
+/// OBL C02.witness.separator_class
+#[test]
+fn c02_separator_matches_exactly_the_separator_characters() {
+    // "'^' matches one separator character (anything but a letter, a digit or one of _ - . %) or the end of the URL when it is last"
+    for sep in ["/", "?", ":", "=", "&", "#", "!", "+", ",", ";", "@", "~"] {
+        let url = format!("https://site.test/redirect{sep}2fads");
+        if Request::new(&url, "https://source.test/", "image").is_ok() {
+            assert!(m("redirect^2fads", &url), "`^` must match {sep:?} in {url}");
+            assert!(m("/redirect^", &format!("https://site.test/redirect{sep}")), "a final `^` must match {sep:?}");
+        }
+    }
+    for non in ["%", "_", "-", ".", "a", "7", "Z"] {
+        let url = format!("https://site.test/redirect{non}2fads");
+        assert!(!m("redirect^2fads", &url), "`^` must not match {non:?} in {url}");
+        assert!(!m("/redirect^", &format!("https://site.test/redirect{non}x")), "a final `^` must not match {non:?}");
+        assert!(!m("||site.test/redirect^2fads", &url) && !m("|https://site.test/redirect^2fads", &url));
+    }
+    // the end of the URL counts only for a `^` in last position
+    assert!(m("/redirect^", "https://site.test/redirect") && !m("redirect^x", "https://site.test/redirect"));
+    assert!(m("||site.test^", "https://site.test") && m("||site.test^", "https://site.test:8080/") && !m("||site.test^", "https://site.testx/"));
+}
